@@ -2,7 +2,7 @@ ALL_IDS = ["C%02d" % i for i in range(1, 21)]
 NOT_BUILT_REASON = {}
 # properties registered in MANIFEST.json (their checks are silent on the unchanged tree and validated
 # against breaks); everything else is listed under not_applicable with the reason "not built yet".
-CLAIMED = ["C01", "C02", "C03", "C04", "C06", "C07", "C08", "C10", "C11", "C12", "C13", "C14", "C15", "C18", "C19"]
+CLAIMED = ["C01", "C02", "C03", "C04", "C06", "C07", "C08", "C10", "C11", "C12", "C13", "C14", "C15", "C16", "C17", "C18", "C19"]
 
 ENGINES = [
     {"name": "config-oracle", "path": "harness/config", "serves_properties": ["C08"],
@@ -17,6 +17,10 @@ ENGINES = [
      "kind_free_text": "direct calls of the real layer-2 / BGP ShouldAnnounce decisions on generated and enumerated cluster views, one controller per node, eligibility / election oracle written from the statements"},
     {"name": "frr-interp", "path": "harness/lib/frrinterp.go + harness/frr/c14_test.go + harness/frrk8s/c15_test.go", "serves_properties": ["C14", "C15"],
      "kind_free_text": "translation validation: interpreter of the generated FRR configuration text (prefix-lists, route-maps, networks, neighbors) and structural oracle on the FRRConfiguration resource, cross-checked against each other"},
+    {"name": "bgp-wire", "path": "harness/native/c16_test.go + harness/lib/rfc4271.go", "serves_properties": ["C16"],
+     "kind_free_text": "bytes written by the real sendOpen/sendKeepalive/sendUpdate/sendWithdraw decoded by an independent RFC 4271 codec; hostile OPEN inputs (valid, structure-aware mutations, random) fed to the real readOpen under recover + watchdog + sentinel bytes"},
+    {"name": "bgp-session", "path": "harness/native/c17_test.go", "serves_properties": ["C17"],
+     "kind_free_text": "scripted in-process BGP peer on a loopback TCP listener with fault scripts (drops idle / between / inside messages, stalls, wrong ASN, held OPEN); table comparison with the last requested route set, under the race detector"},
     {"name": "conversion", "path": "harness/controllers/c18_test.go", "serves_properties": ["C18"],
      "kind_free_text": "toConfig on all pool permutations x shuffles x repetitions; real Config/Pool reconcilers on a fake client counting handler calls"},
     {"name": "debounce", "path": "harness/frr/c19_test.go + harness/controllers/c19_test.go", "serves_properties": ["C19"],
@@ -118,6 +122,20 @@ META = {
         "design_ref": "DESIGN.md 2/C15",
         "note": "SourceAddress is not demanded. Cross-check skipped for session sets FRR mode refuses.",
         "technique": "translation validation: structural oracle + cross-check against the interpreted FRR text",
+    },
+    "C16": {
+        "engine": "bgp-wire",
+        "text": "Every message the real encoder writes (exhaustive prefix lengths 0..32, ASNs across the 2/4-byte boundary, 0..63 communities, iBGP/eBGP x 4-byte capable or not, withdraws up to several thousand prefixes) is decoded by an independent strict RFC 4271 decoder and compared with the intended content; readOpen is fed valid OPENs from the harness's encoder, structure-aware mutations and random bytes, each call under recover + goroutine watchdog with trailing sentinel bytes (never panics / hangs / over-consumes; well-formed OPENs yield ASN, hold time, capabilities).",
+        "design_ref": "DESIGN.md 2/C16",
+        "note": "Trusted: harness/lib/rfc4271.go. MP capabilities with a non-zero reserved octet and IPv6 next hops are not judged.",
+        "technique": "runtime monitoring: independent decoder as oracle over emitted bytes + hostile inputs under recover/watchdog",
+    },
+    "C17": {
+        "engine": "bgp-session",
+        "text": "The real native session (run / connect / sendUpdates / abort / Close) talks over loopback TCP to a scripted peer that decodes every message into a routing table and injects faults at scripted points (drop idle, between messages, inside a message, during OPEN; stall reading; wrong ASN for the first attempts; held OPEN reply). Oracle: bounded-progress convergence of the table to the last requested set, every announced route was requested by an earlier Set, each new connection starts with a full re-send, a wrong-ASN peer receives nothing after its OPEN, nothing happens after Close returned. Under the race detector.",
+        "design_ref": "DESIGN.md 2/C17",
+        "note": "Eventually is decided as bounded progress with the starvation canary and a canary-clean confirmation period; expiry under starvation is inconclusive.",
+        "technique": "runtime monitoring with fault injection: scripted peer, table comparison, race detector",
     },
     "C18": {
         "engine": "conversion",
